@@ -1,59 +1,23 @@
 (* C09 — the formatter preserves meaning, is idempotent and emits parseable source.
-   Statements with Print Assumptions beneath; the proofs are in coq/proofs/Bcl*.v (the short
-   bridging lemmas between doc_of and the proofs' position-free view are here).
+   Statements with Print Assumptions beneath; every proof is in coq/proofs/Bcl*.v (here only
+   [exact]); the declarative document (doc_of, desc_doc, stmt_doc, accepted) is model/BclDoc.v.
    The full statement C09_full_statement is proved as C09_full (all inputs, rune level).
    Also stated: totality, the literal / token / line level (tokenSource is a right inverse of the
    lexer for every token the lexer emits, adjacent tokens cannot fuse), the re-flow keeps
    paragraphs and is a fixed point. *)
 From Coq Require Import String List NArith ZArith Bool.
 From J5V.lib Require Import Text Outcome.
-From J5V.model Require Import BclLexer BclParser BclFmt.
-From J5V.proofs Require Import BclPosProofs BclLexerProofs BclParserProofs BclFmtProofs BclFmtLitProofs BclReflowProofs BclLexLitProofs BclFmtSeqProofs BclFragWfProofs BclFmtLineProofs BclWalkBackProofs BclFmtFileProofs BclDescGapProofs BclFmtRoundProofs BclFmtIdemProofs.
+From J5V.model Require Import BclLexer BclParser BclFmt BclCli.
+From J5V.proofs Require Import BclPosProofs BclLexerProofs BclParserProofs BclFmtProofs BclFmtLitProofs BclReflowProofs BclLexLitProofs BclFmtSeqProofs BclFragWfProofs BclFmtLineProofs BclWalkBackProofs BclFmtFileProofs BclDescGapProofs BclFmtRoundProofs BclFmtIdemProofs BclDocProofs BclUtf8Proofs BclRuneClosedProofs BclFmtBytesProofs BclDocBytesProofs BclCliProofs.
+(* after the proofs: doc_of / value_doc / tag_doc below are the declarative ones of model/BclDoc.v *)
+From J5V.model Require Import BclDoc.
 Import ListNotations.
 
-(* ---- the position-free document of a fragment list -------------------------------------------- *)
-Definition tok_doc (t : token) : N * list N := (tt_code (ty t), lit t).
-Fixpoint value_doc (v : value) : list (N * list N) :=
-  match v with
-  | VTok t _ _ => [tok_doc t]
-  | VArr vs _ _ => (19%N, []) :: flat_map value_doc vs ++ [(20%N, [])]
-  end.
-Definition ref_doc (r : reference) : list (list N) := map lit r.
-Definition mark_code (m : mark) : N := match m with MarkNone => 0 | MarkBang => 1 | MarkQuestion => 2 end%N.
-Definition tag_doc (t : tag) : N * list (N * list N) :=
-  (mark_code (tmark t),
-   match tbody t with TagRef r => map (fun i => (5%N, i)) (ref_doc r) | TagVal v => value_doc v end).
-(* descriptions: paragraphs of words *)
-Fixpoint paragraphs (lines : list (list N)) (cur : list (list N)) : list (list (list N)) :=
-  match lines with
-  | [] => match cur with [] => [] | _ => [cur] end
-  | l :: r => match fields l with
-              | [] => match cur with [] => paragraphs r [] | _ => cur :: paragraphs r [] end
-              | ws => paragraphs r (cur ++ ws)
-              end
-  end.
-Definition desc_doc (value : list N) : list (list (list N)) := paragraphs (split_on 10 value) [].
-Definition comment_doc (c : option comment) : option (list N) := option_map cvalue c.
-
-Inductive frag_doc :=
-| DHeader (ty : list (list N)) (tags quals : list (N * list (N * list N))) (desc : option (list (list (list N))))
-          (op : bool) (c : option (list N))
-| DAssign (key : list (list N)) (app : bool) (v : list (N * list N)) (c : option (list N))
-| DDesc (paras : list (list (list N)))
-| DComment (t : N * list N)
-| DClose.
-
-Definition doc_of (f : fragment) : frag_doc :=
-  match f with
-  | FHeader h => DHeader (ref_doc (htype h)) (map tag_doc (htags h)) (map tag_doc (hquals h))
-                         (option_map (fun d => desc_doc (dvalue d)) (hdesc h)) (hopen h) (comment_doc (hcomment h))
-  | FAssign a => DAssign (ref_doc (akey a)) (aappend a) (value_doc (avalue a)) (comment_doc (acomment a))
-  | FDesc d => DDesc (desc_doc (dvalue d))
-  | FComment t => DComment (tok_doc t)
-  | FClose _ => DClose
-  end.
-
-Definition accepted (data : list N) : Prop := exists body, parse_runes true data = Ok (mkP (Some body) []).
+(* [doc_of f] (model/BclDoc.v): the position-free document of a fragment — header: type idents, tags and
+   qualifiers with mark code and body, description as paragraphs of words, open flag, trailing comment;
+   assignment: key idents, append flag, flattened value tokens (type code, literal), comment; description:
+   paragraphs of words; comment: type and text; closing brace.  [accepted data]: ParseFile (fail-fast)
+   returns a tree and no diagnostics.  [stmt_doc]: the same reading of a node of the nested tree. *)
 
 (* the property at full strength, on runes *)
 Definition C09_full_statement : Prop :=
@@ -172,9 +136,7 @@ Theorem C09_walk_back : forall es fuel s, stream_ok es -> pt s = stream es ->
   exists fs, walk_fragments_loop fuel true s = WalkOk fs [] /\
              map (fun f => match f with FDesc d => DD (dvalue d) | _ => fdoc_of f end) fs
              = map (fun be => entry_doc (snd be)) es.
-Proof.
-  intros es fuel s H1 H2 H3. destruct (walk_stream_back es fuel s H1 H2 H3) as (fs & A & _ & B). eauto.
-Qed.
+Proof. exact walk_back_docs. Qed.
 Print Assumptions C09_walk_back.
 
 (* idempotence of the description re-flow (finding 22 lived here): feeding the re-flowed lines back
@@ -188,73 +150,12 @@ Print Assumptions C09_reflow_fixed_point.
    prints them and the parser's popDescription re-joins them, have the same words and the same paragraph
    breaks as the input text, for every text and width.  desc_doc is the declarative reading used by
    doc_of above; paras (BclReflowProofs) is the left-fold form the proof works with *)
-Lemma paragraphs_paras : forall lines d c,
-  pflush (fold_left pstep (map fields lines) (d, c)) = d ++ paragraphs lines c.
-Proof.
-  induction lines as [|l r IH]; intros d c; cbn [map fold_left paragraphs].
-  - unfold pflush. cbn [fst snd]. destruct c; [rewrite app_nil_r|]; reflexivity.
-  - destruct (fields l) as [|w ws] eqn:E.
-    + cbn [pstep]. rewrite IH. unfold pflush. cbn [fst snd]. destruct c; [reflexivity|].
-      rewrite <- app_assoc. reflexivity.
-    + cbn [pstep fst snd]. rewrite IH. reflexivity.
-Qed.
-
-Lemma desc_doc_paras value : desc_doc value = paras (map fields (split_on 10 value)).
-Proof. unfold desc_doc, paras, pstate. rewrite paragraphs_paras. reflexivity. Qed.
-
 Theorem C09_reflow_same_paragraphs : forall maxw input,
   desc_doc (join_with 10 (reformat_description input maxw)) = desc_doc input.
-Proof. intros. rewrite !desc_doc_paras. apply reflow_paras. Qed.
+Proof. exact reflow_same_paragraphs. Qed.
 Print Assumptions C09_reflow_same_paragraphs.
 
 (* ---- file level: output accepted, same document ------------------------------------------------- *)
-(* doc_of is a function of the position-free fragment view (fdoc_of) the walker-back proofs work with *)
-Definition ptok_doc (p : ptok) : N * list N := (tt_code (fst p), snd p).
-Definition conv_tag (t : mark * (list (list N) + list ptok)) : N * list (N * list N) :=
-  (mark_code (fst t), match snd t with inl r => map (fun i => (5%N, i)) r | inr v => map ptok_doc v end).
-Definition fdoc_doc (x : fdoc) : frag_doc :=
-  match x with
-  | DH ty tags quals desc op c => DHeader ty (map conv_tag tags) (map conv_tag quals) (option_map desc_doc desc) op c
-  | DA key app v c => DAssign key app (map ptok_doc v) c
-  | DD value => DDesc (desc_doc value)
-  | DC t => DComment (ptok_doc t)
-  | DX => DClose
-  end.
-
-Lemma value_doc_conv : forall v, value_doc v = map ptok_doc (BclWalkBackProofs.value_doc v).
-Proof.
-  apply value_ind'; [reflexivity|]. intros vs s e H. cbn [value_doc BclWalkBackProofs.value_doc].
-  cbn [map]. rewrite map_app. cbn [map]. f_equal. f_equal.
-  induction H as [|x r Hx _ IH]; [reflexivity|]. cbn [flat_map]. rewrite map_app, Hx, IH. reflexivity.
-Qed.
-
-Lemma tag_doc_conv t : tag_doc t = conv_tag (BclWalkBackProofs.tag_doc t).
-Proof.
-  unfold tag_doc, conv_tag, BclWalkBackProofs.tag_doc. cbn [fst snd]. destruct (tbody t); [reflexivity|].
-  rewrite value_doc_conv. reflexivity.
-Qed.
-
-Lemma doc_of_fdoc f : doc_of f = fdoc_doc (fdoc_of f).
-Proof.
-  destruct f as [h|a|d|t|t]; cbn [doc_of fdoc_of fdoc_doc]; try reflexivity.
-  - rewrite !map_map. rewrite (map_ext _ _ tag_doc_conv (htags h)), (map_ext _ _ tag_doc_conv (hquals h)).
-    f_equal. destruct (hdesc h); reflexivity.
-  - rewrite value_doc_conv. reflexivity.
-Qed.
-
-(* the entries the output is read from carry the documents of the original fragments: descriptions by
-   C09_reflow_same_paragraphs (the empty description, printed as a bare |, has no paragraphs either) *)
-Lemma entries_docs : forall fs n first last,
-  map (fun be => fdoc_doc (entry_doc (snd be))) (entries fs n first last) = map doc_of fs.
-Proof.
-  induction fs as [|f r IH]; intros n first last; [reflexivity|].
-  destruct f as [h|a|d|t|t]; cbn [entries map snd entry_doc]; rewrite IH; f_equal; try (symmetry; apply doc_of_fdoc).
-  cbn [fdoc_doc doc_of]. f_equal. unfold desc_lines.
-  pose proof (C09_reflow_same_paragraphs (80 - Z.of_nat n * 4) (dvalue d)) as H.
-  destruct (reformat_description (dvalue d) (80 - Z.of_nat n * 4)); exact H.
-Qed.
-
-(* the parser accepts what the formatter prints for every file the parser accepts *)
 Theorem C09_output_accepted : forall data, accepted data ->
   exists out, fmt_runes data = Ok out /\ accepted out.
 Proof. exact fmt_output_accepted. Qed.
@@ -265,13 +166,7 @@ Print Assumptions C09_output_accepted.
    same comments, descriptions with the same words and paragraph breaks *)
 Theorem C09_same_document : forall data fs, collect_fragments data = Ok fs ->
   exists out fs', fmt_runes data = Ok out /\ collect_fragments out = Ok fs' /\ map doc_of fs' = map doc_of fs.
-Proof.
-  intros data fs Hc. destruct (fmt_roundtrip data fs Hc) as (fs' & Hc' & Hdocs).
-  exists (fmt_join (diff_file fs 0) true (-1)), fs'. split; [|split; [exact Hc'|]].
-  - unfold fmt_runes, collect_fmt. rewrite Hc. reflexivity.
-  - rewrite <- (entries_docs fs 0 true (-1)). rewrite (map_ext _ _ doc_of_fdoc).
-    rewrite <- (map_map fdoc_of fdoc_doc), Hdocs, map_map. reflexivity.
-Qed.
+Proof. exact fmt_same_document. Qed.
 Print Assumptions C09_same_document.
 
 (* the full statement without its last clause (idempotence) *)
@@ -280,96 +175,16 @@ Theorem C09_accepted_same_document : forall data, accepted data ->
     fmt_runes data = Ok out /\ accepted out /\
     collect_fragments data = Ok fs /\ collect_fragments out = Ok fs' /\
     map doc_of fs' = map doc_of fs.
-Proof.
-  intros data Ha. destruct (C09_output_accepted data Ha) as (out & Hf & Hacc).
-  destruct (proj1 (accepted_iff data) Ha) as (fs & Hc & _).
-  destruct (C09_same_document data fs Hc) as (out2 & fs' & Hf2 & Hc' & Hd).
-  rewrite Hf in Hf2. injection Hf2 as <-. exists out, fs, fs'. auto.
-Qed.
+Proof. exact fmt_accepted_same_document. Qed.
 Print Assumptions C09_accepted_same_document.
 
 (* ---- the same at the level of the syntax tree ParseFile returns ---------------------------------- *)
 (* the tree is fragmentsToFile of the fragments (comments are dropped, blocks nest); its position-free
    reading uses doc_of for every header, assignment and description *)
-Inductive tdoc := TBlock (h : frag_doc) (body : list tdoc) | TLeaf (d : frag_doc).
-Fixpoint stmt_doc (s : stmt) : tdoc :=
-  match s with
-  | SBlock h body => TBlock (doc_of (FHeader h)) (map stmt_doc body)
-  | SAssign a => TLeaf (doc_of (FAssign a))
-  | SDesc d => TLeaf (doc_of (FDesc d))
-  end.
-
-(* fragmentsToFile on documents *)
-Fixpoint d_loop (ds : list frag_doc) (cur : list tdoc) (stack : list (frag_doc * list tdoc))
-  : list tdoc * list (frag_doc * list tdoc) :=
-  match ds with
-  | [] => (cur, stack)
-  | d :: r =>
-    match d with
-    | DHeader _ _ _ _ true _ => d_loop r [] ((d, cur) :: stack)
-    | DHeader _ _ _ _ false _ => d_loop r (cur ++ [TBlock d []]) stack
-    | DAssign _ _ _ _ | DDesc _ => d_loop r (cur ++ [TLeaf d]) stack
-    | DComment _ => d_loop r cur stack
-    | DClose => match stack with
-                | [] => d_loop r cur stack
-                | (h, parent) :: st => d_loop r (parent ++ [TBlock h cur]) st
-                end
-    end
-  end.
-Fixpoint d_unwind (cur : list tdoc) (stack : list (frag_doc * list tdoc)) : list tdoc :=
-  match stack with
-  | [] => cur
-  | (h, parent) :: st => d_unwind (parent ++ [TBlock h cur]) st
-  end.
-Definition stack_doc (stack : list (header * list stmt)) : list (frag_doc * list tdoc) :=
-  map (fun hp => (doc_of (FHeader (fst hp)), map stmt_doc (snd hp))) stack.
-
-Lemma to_file_loop_doc : forall fs cur stack errs,
-  d_loop (map doc_of fs) (map stmt_doc cur) (stack_doc stack) =
-  (map stmt_doc (fst (fst (to_file_loop fs cur stack errs))), stack_doc (snd (fst (to_file_loop fs cur stack errs)))).
-Proof.
-  induction fs as [|f r IH]; intros cur stack errs; [reflexivity|].
-  destruct f as [h|a|d|t|t]; cbn [map to_file_loop].
-  - cbn [doc_of d_loop]. destruct (hopen h) eqn:Eo.
-    + rewrite <- (IH [] ((h, cur) :: stack) errs). unfold stack_doc. cbn [map fst snd doc_of]. rewrite Eo. reflexivity.
-    + rewrite <- (IH (cur ++ [SBlock h []]) stack errs). rewrite map_app. cbn [map stmt_doc doc_of]. rewrite Eo. reflexivity.
-  - cbn [doc_of d_loop]. rewrite <- (IH (cur ++ [SAssign a]) stack errs). rewrite map_app. reflexivity.
-  - cbn [doc_of d_loop]. rewrite <- (IH (cur ++ [SDesc d]) stack errs). rewrite map_app. reflexivity.
-  - cbn [doc_of d_loop]. apply IH.
-  - cbn [doc_of d_loop]. destruct stack as [|[h parent] st]; cbn [stack_doc map fst snd].
-    + apply (IH cur [] _).
-    + rewrite <- (IH (close_level h cur parent) st errs). unfold close_level. rewrite map_app. reflexivity.
-Qed.
-
-Lemma unwind_doc : forall stack cur, map stmt_doc (unwind cur stack) = d_unwind (map stmt_doc cur) (stack_doc stack).
-Proof.
-  induction stack as [|[h parent] st IH]; intros cur; [reflexivity|].
-  cbn [unwind stack_doc map fst snd d_unwind]. rewrite IH. unfold close_level. rewrite map_app. reflexivity.
-Qed.
-
-Lemma to_file_doc fs fs' : map doc_of fs' = map doc_of fs ->
-  map stmt_doc (fst (fragments_to_file fs')) = map stmt_doc (fst (fragments_to_file fs)).
-Proof.
-  intros E. unfold fragments_to_file.
-  pose proof (to_file_loop_doc fs [] [] []) as H1. pose proof (to_file_loop_doc fs' [] [] []) as H2. rewrite E in H2.
-  destruct (to_file_loop fs [] [] []) as [[c1 s1] e1]. destruct (to_file_loop fs' [] [] []) as [[c2 s2] e2].
-  cbn [fst snd] in *. rewrite !unwind_doc. rewrite H1 in H2. injection H2 as <- <-. reflexivity.
-Qed.
-
-(* the tree ParseFile returns for the formatter's output is, position-free, the tree of the input *)
 Theorem C09_same_tree : forall data body, parse_runes true data = Ok (mkP (Some body) []) ->
   exists out body', fmt_runes data = Ok out /\ parse_runes true out = Ok (mkP (Some body') []) /\
                     map stmt_doc body' = map stmt_doc body.
-Proof.
-  intros data body Hp. assert (Ha : accepted data) by (exists body; exact Hp).
-  destruct (C09_accepted_same_document data Ha) as (out & fs & fs' & Hf & [body' Hp'] & Hc & Hc' & Hd).
-  exists out, body'. split; [exact Hf|]. split; [exact Hp'|].
-  assert (Hb : forall d b l, collect_fragments d = Ok l -> parse_runes true d = Ok (mkP (Some b) []) -> b = fst (fragments_to_file l)).
-  { intros d b l. unfold collect_fragments, parse_runes. destruct (all_tokens true d); try discriminate.
-    destruct (walk_fragments true toks) as [l0 ds|p|]; try discriminate. destruct ds; [|discriminate].
-    intros [= <-]. destruct (fragments_to_file l0) as [b0 e0]. intros [= <- _]. reflexivity. }
-  rewrite (Hb data body fs Hc Hp), (Hb out body' fs' Hc' Hp'). apply to_file_doc. exact Hd.
-Qed.
+Proof. exact fmt_same_tree. Qed.
 Print Assumptions C09_same_tree.
 
 (* formatting twice changes nothing: whatever Fmt returns is a fixed point of Fmt.  The fragments read
@@ -382,11 +197,104 @@ Print Assumptions C09_idempotent.
 
 (* ---- the full statement ---------------------------------------------------------------------------- *)
 Theorem C09_full : C09_full_statement.
-Proof.
-  intros data Ha. destruct (C09_accepted_same_document data Ha) as (out & fs & fs' & Hf & Hacc & Hc & Hc' & Hd).
-  exists out, fs, fs'. repeat (split; [assumption|]). apply (C09_idempotent data out Hf).
-Qed.
+Proof. exact fmt_full. Qed.
 Print Assumptions C09_full.
+
+(* ---- the same on Go strings (bytes) ---------------------------------------------------------------- *)
+(* Fmt(input string) = string(fmt_runes([]rune(input))): fmt_bytes = utf8_encode . fmt_runes . utf8_decode,
+   ParseFile(input) = parse_runes([]rune(input)).  The statement over ALL byte strings the parser accepts
+   (invalid UTF-8 included: such bytes are read as U+FFFD): Fmt succeeds, the parser accepts the output
+   bytes, their fragments have the same documents as the input's, and Fmt of the output bytes is the
+   output bytes.  Rests on: []rune(s) only yields valid runes (decode_valid), string([]rune) read back by
+   []rune is the identity on valid runes (decode_encode), and the formatter writes only runes of its input
+   and ASCII (fmt_runes_closed: lexer literals, walker fragments, every text the formatter builds) *)
+Definition C09_full_statement_bytes : Prop :=
+  forall input, accepted_bytes input ->
+    exists outb fs fs',
+      fmt_bytes input = Ok outb /\ accepted_bytes outb /\
+      collect_fragments (utf8_decode input) = Ok fs /\ collect_fragments (utf8_decode outb) = Ok fs' /\
+      map doc_of fs' = map doc_of fs /\
+      fmt_bytes outb = Ok outb.
+
+Theorem C09_full_bytes : C09_full_statement_bytes.
+Proof. exact fmt_full_bytes. Qed.
+Print Assumptions C09_full_bytes.
+
+Theorem C09_same_tree_bytes : forall input body, parse_file input true = Ok (mkP (Some body) []) ->
+  exists outb body', fmt_bytes input = Ok outb /\ parse_file outb true = Ok (mkP (Some body') []) /\
+                     map stmt_doc body' = map stmt_doc body.
+Proof. exact fmt_same_tree_bytes. Qed.
+Print Assumptions C09_same_tree_bytes.
+
+Theorem C09_idempotent_bytes : forall input outb, fmt_bytes input = Ok outb -> fmt_bytes outb = Ok outb.
+Proof. exact fmt_bytes_idempotent. Qed.
+Print Assumptions C09_idempotent_bytes.
+
+(* the three facts the byte level adds *)
+Theorem C09_decode_yields_valid_runes : forall bs, Forall (fun c => valid_rune c = true) (utf8_decode bs).
+Proof. exact decode_valid. Qed.
+Print Assumptions C09_decode_yields_valid_runes.
+
+Theorem C09_decode_encode : forall rs, Forall (fun c => valid_rune c = true) rs -> utf8_decode (utf8_encode rs) = rs.
+Proof. exact decode_encode. Qed.
+Print Assumptions C09_decode_encode.
+
+Theorem C09_formatter_emits_input_runes_and_ascii : forall (P : N -> Prop), (forall c, (c < 128)%N -> P c) ->
+  forall data out, Forall P data -> fmt_runes data = Ok out -> Forall P out.
+Proof. exact fmt_runes_closed. Qed.
+Print Assumptions C09_formatter_emits_input_runes_and_ascii.
+
+(* the output is always valid UTF-8, also for an input that is not *)
+Theorem C09_output_is_utf8 : forall input outb, fmt_bytes input = Ok outb -> utf8_encode (utf8_decode outb) = outb.
+Proof. exact fmt_bytes_output_utf8. Qed.
+Print Assumptions C09_output_is_utf8.
+
+(* ---- `j5 j5s fmt --write`: which files are written, with what bytes (model/BclCli.v) ----------------- *)
+(* A file tree is a list of (path, content) with distinct paths.  run_fmt models runJ5sFmt / runForJ5Files /
+   fileWriter.PutFile: --dir visits the files whose extension is .j5s in fs.WalkDir order and stops at the
+   first one the formatter rejects; --file formats the one file; only --write writes.
+   [format_tree t]: every .j5s entry replaced by Fmt's output, every other entry as it was *)
+Theorem C09_cli_without_write_changes_nothing : forall target t, fs_after (run_fmt target false t) = t.
+Proof. exact fmt_without_write_changes_nothing. Qed.
+Print Assumptions C09_cli_without_write_changes_nothing.
+
+Theorem C09_cli_dir_write : forall t, NoDup (map fst t) ->
+  (forall p d, In (p, d) t -> is_j5s p = true -> exists o, fmt_bytes d = Ok o) ->
+  run_fmt TDir true t = mkCli (format_tree t) [] None.
+Proof. exact fmt_dir_write_spec. Qed.
+Print Assumptions C09_cli_dir_write.
+
+(* the first rejected source in walk order ends the run: the sources before it are rewritten, it and the later
+   ones (and every other file) are untouched, the command reports it *)
+Theorem C09_cli_dir_write_stops_at_first_rejected : forall t pre p d post, NoDup (map fst t) ->
+  j5s_files t = pre ++ (p, d) :: post ->
+  Forall (fun e => exists o, fmt_bytes (snd e) = Ok o) pre -> ~ (exists o, fmt_bytes d = Ok o) ->
+  run_fmt TDir true t = mkCli (map (rewrite_by pre) t) [] (Some p).
+Proof. exact fmt_dir_write_stops. Qed.
+Print Assumptions C09_cli_dir_write_stops_at_first_rejected.
+
+Theorem C09_cli_file_write : forall t p d, NoDup (map fst t) -> In (p, d) t -> (exists o, fmt_bytes d = Ok o) ->
+  run_fmt (TFile p) true t = mkCli (map (fun e => if path_eqb (fst e) p then (fst e, fmt_out d) else e) t) [] None.
+Proof. exact fmt_file_write_spec. Qed.
+Print Assumptions C09_cli_file_write.
+
+(* running the command a second time succeeds and leaves every file as it is *)
+Theorem C09_cli_second_run_changes_nothing : forall t, NoDup (map fst t) ->
+  (forall p d, In (p, d) t -> is_j5s p = true -> exists o, fmt_bytes d = Ok o) ->
+  run_fmt TDir true (format_tree t) = mkCli (format_tree t) [] None.
+Proof. exact fmt_dir_write_twice. Qed.
+Print Assumptions C09_cli_second_run_changes_nothing.
+
+(* and what is then on disk: every source the parser accepted is replaced by bytes the parser accepts, with
+   the same document, that Fmt maps to themselves *)
+Theorem C09_cli_write_keeps_documents : forall t, NoDup (map fst t) ->
+  (forall p d, In (p, d) t -> is_j5s p = true -> exists o, fmt_bytes d = Ok o) ->
+  forall p d, In (p, d) t -> is_j5s p = true -> accepted_bytes d ->
+    exists d' fs fs', In (p, d') (fs_after (run_fmt TDir true t)) /\ accepted_bytes d' /\
+      collect_fragments (utf8_decode d) = Ok fs /\ collect_fragments (utf8_decode d') = Ok fs' /\
+      map doc_of fs' = map doc_of fs /\ fmt_bytes d' = Ok d'.
+Proof. exact fmt_dir_write_keeps_documents. Qed.
+Print Assumptions C09_cli_write_keeps_documents.
 
 (* non-vacuity: a string with every escapable rune, a regex with slashes, nested array, trailing
    comment, description: accepted, formatted, the output accepted with the same document, and a
@@ -402,3 +310,22 @@ Proof.
   split; [vm_compute; reflexivity|]. split; [vm_compute; reflexivity|].
   split; [vm_compute; reflexivity|]. split; [vm_compute; reflexivity|]. vm_compute. discriminate.
 Qed.
+
+(* non-vacuity on bytes: a two-byte rune inside a string literal; an invalid byte is formatted to U+FFFD *)
+Example C09_example_bytes :
+  fmt_bytes [97; 61; 34; 195; 169; 34; 10]%N = Ok [97; 32; 61; 32; 34; 195; 169; 34; 10]%N /\
+  accepted_bytes [97; 61; 34; 195; 169; 34; 10]%N /\
+  fmt_bytes [97; 61; 34; 195; 34; 10]%N = Ok [97; 32; 61; 32; 34; 239; 191; 189; 34; 10]%N.
+Proof. split; [vm_compute; reflexivity|]. split; [eexists; vm_compute; reflexivity|vm_compute; reflexivity]. Qed.
+
+(* non-vacuity for the command: walk order is by path component (a/b.j5s before a-/q.j5s before a.j5s), the
+   rejected a.j5s stops the run, z.j5s is not reached, notes.txt is not a source *)
+Example C09_example_cli :
+  let raw := [120;32;32;61;32;49;10]%N in let fixed := [120;32;61;32;49;10]%N in let bad := [120;32;61;32;61;10]%N in
+  let p (s : list (list N)) := s in
+  let a := p [[97;46;106;53;115]]%N in let ab := p [[97];[98;46;106;53;115]]%N in let aq := p [[97;45];[113;46;106;53;115]]%N in
+  let z := p [[122;46;106;53;115]]%N in let n := p [[115;117;98];[110;46;116;120;116]]%N in
+  run_fmt TDir true [(aq, raw); (a, bad); (ab, raw); (n, raw); (z, raw)]
+  = mkCli [(aq, fixed); (a, bad); (ab, fixed); (n, raw); (z, raw)] [] (Some a) /\
+  map fst (j5s_files [(aq, raw); (a, bad); (ab, raw); (n, raw); (z, raw)]) = [ab; aq; a; z].
+Proof. cbv zeta. split; vm_compute; reflexivity. Qed.
